@@ -306,11 +306,13 @@ func getBufioReader(r io.Reader) *bufio.Reader {
 	if !ok {
 		return bufio.NewReader(r)
 	}
+	verifPool("bufioReader", "get", br)
 	br.Reset(r)
 	return br
 }
 
 func putBufioReader(br *bufio.Reader) {
+	verifPool("bufioReader", "put", br)
 	bufioReaderPool.Put(br)
 }
 
@@ -321,10 +323,12 @@ func getBufioWriter(w io.Writer) *bufio.Writer {
 	if !ok {
 		return bufio.NewWriter(w)
 	}
+	verifPool("bufioWriter", "get", bw)
 	bw.Reset(w)
 	return bw
 }
 
 func putBufioWriter(bw *bufio.Writer) {
+	verifPool("bufioWriter", "put", bw)
 	bufioWriterPool.Put(bw)
 }
